@@ -53,7 +53,7 @@ def _one_program(args):
     prog = None
     for _ in range(20):
         # every fifth program has relations with 5-9 columns (high-arity index and iteration code)
-        prog = progs.wide_program(rng) if (idx % 5 == 4 and not surjective_only) else g.gen()
+        prog = progs.wide_program(rng) if idx % 5 == 4 else g.gen()   # (wide programs have no `!`: fine for C06 too)
         if prog is not None:
             break
     if prog is None:
